@@ -42,7 +42,10 @@ type vpFExpr struct {
 func vpFNamePool() []string {
 	c := vpByte("first")
 	vpAssume(c == '$' || c == 'q')
-	return []string{string([]byte{c, 'v'}), "a", "b", "$l"}
+	c2 := vpByte("mid")
+	vpAssume(c2 == '$' || c2 == 'x')
+	// names[0]: symbolic first byte ('$' => a local); names[4]: symbolic middle byte (never a local)
+	return []string{string([]byte{c, 'v'}), "a", "b", "$l", string([]byte{'p', c2, 'u'})}
 }
 
 func vpGenF(pool []string, budget *int, depth int) *vpFExpr {
@@ -285,7 +288,7 @@ func VP_C10_fields() {
 	// fields and the called names gives the same result
 	full := func() map[string]interface{} {
 		return map[string]interface{}{
-			pool[0]: 4, "a": map[string]interface{}{"b": map[string]interface{}{"c": 3}}, "b": 2, "$l": 6, "zz": 9, "unused": "u",
+			pool[0]: 4, pool[4]: 11, "a": map[string]interface{}{"b": map[string]interface{}{"c": 3}}, "b": 2, "$l": 6, "zz": 9, "unused": "u",
 			"g":  func(x interface{}) (int, error) { return 7, nil },
 			"gv": func(xs ...interface{}) (int, error) { return len(xs), nil },
 			"o":  map[string]interface{}{"m": func(x interface{}) (int, error) { return 8, nil }},
